@@ -345,6 +345,47 @@ def late_edit_programs():
         m.r = h.R(r=1)(p=sl, n=m.bus[0])
         return m
 
+    def concat_part_resized():
+        # a concatenation whose width was asked for once, then one of its parts is widened (seed C06-r8-1: a remembered width)
+        leaf = h.Module(name="CatLeaf"); leaf.d = h.Input(width=2)
+        m = h.Module(name="CatResized")
+        m.x = h.Signal(); m.y = h.Signal()
+        bus = h.Concat(m.x, m.y)
+        _ = bus.width
+        m.y.width = 2
+        m.l = leaf(d=bus)
+        return m
+
+    def concat_part_resized_after_failure():
+        # the same without asking: a first export fails in a sibling after the first ConnTypes pass, the parent is then resized and exported alone
+        leaf = h.Module(name="CatLeafF"); leaf.d = h.Input(width=2)
+        par = h.Module(name="CatParentF")
+        par.x = h.Signal(); par.y = h.Signal()
+        par.l = leaf(d=h.Concat(par.x, par.y))
+        sib = h.Module(name="CatSiblingF"); sib.w = h.Signal(width=3)
+        sib.arr = 2 * leaf(d=sib.w)          # 3 bits over two 2-bit ports: refused by ArrayFlattener
+        top = h.Module(name="CatTopF")
+        top.p = par(); top.s = sib()
+        try:
+            h.to_proto(top)
+        except Exception:  # noqa
+            pass
+        par.y.width = 2
+        return par
+
+    def ext_twice_other_width(wide_first):
+        # one external module declared twice, the declarations differing in nothing but the width of a port (seed C06-r8-2)
+        def mk():
+            def decl(w):
+                return h.ExternalModule(name="EW", domain="lib", port_list=[h.Input(name="d", width=w), h.Output(name="q")], paramtype=dict)
+            m = h.Module(name="TwoWidths" + ("W" if wide_first else "N"))
+            m.a = h.Signal(width=8); m.b = h.Signal(width=16); m.q0, m.q1 = h.Signals(2)
+            first, second = ((16, m.b), (8, m.a)) if wide_first else ((8, m.a), (16, m.b))
+            m.e0 = decl(first[0])({})(d=first[1], q=m.q0)
+            m.e1 = decl(second[0])({})(d=second[1], q=m.q1)
+            return m
+        return mk
+
     def vis_changed(promote):
         def mk():
             tag = "P" if promote else "H"
@@ -377,7 +418,9 @@ def late_edit_programs():
         dac.u1 = unit(i=dac.i[2:4], o=dac.o[1])
         return dac
 
-    return [("late:ext_ports_grown", ext_ports_grown), ("late:ext_ports_shrunk", ext_ports_shrunk), ("late:signal_narrowed", signal_narrowed),
+    return [("late:concat_part_resized", concat_part_resized), ("late:concat_part_resized_after_failure", concat_part_resized_after_failure),
+            ("ext:declared_twice_other_width", ext_twice_other_width(False)), ("ext:declared_twice_other_width_wide_first", ext_twice_other_width(True)),
+            ("late:ext_ports_grown", ext_ports_grown), ("late:ext_ports_shrunk", ext_ports_shrunk), ("late:signal_narrowed", signal_narrowed),
             ("late:vis_promoted", vis_changed(True)), ("late:vis_hidden", vis_changed(False)),
             ("names:module_called_name", called_name), ("names:parent_over_dotted_child", dotted_child)]
 
